@@ -33,7 +33,7 @@ struct loopctx {
 	int handled;
 };
 static struct loopctx L[2];
-static int cycles, with_sig;
+static int cycles, with_sig, sigflags[2];
 
 static void ev_cb(void *c) { ((struct loopctx *)c)->handled++; }
 static void raw_cb(void *c) { (void)c; }
@@ -68,7 +68,7 @@ static void body(void *_c)
 		if (with_sig) {
 			IV_SIGNAL_INIT(&c->sig);
 			c->sig.signum = SIGUSR1;
-			c->sig.flags = 0;
+			c->sig.flags = sigflags[c->id];
 			c->sig.cookie = c;
 			c->sig.handler = sig_cb;
 			iv_signal_register(&c->sig);
@@ -102,6 +102,11 @@ static void exec_one(void)
 	cycles = mc_arg_int("cycles", 2);
 	with_sig = mc_arg_int("sig", 1);
 	method = mc_choose(4, MC_CONFIG, "method");
+	{
+		static const int fl[3] = { 0, IV_SIGNAL_FLAG_THIS_THREAD, IV_SIGNAL_FLAG_EXCLUSIVE };
+		sigflags[0] = fl[mc_choose(3, MC_CONFIG, "sigflags0")];
+		sigflags[1] = fl[mc_choose(3, MC_CONFIG, "sigflags1")];
+	}
 	env_exclude_methods = excl[method];
 	mc_obs("m%d", method);
 	allocs0 = env_lib_allocs_live;
